@@ -261,11 +261,15 @@ fn render_derive(w: &[&str]) -> String {
             attrs.push_str(&format!("#[animate({} = {})] ", n, val));
         }
     }
-    let fields: Vec<(String, String, bool)> = w[4..].iter().map(|f| { let p: Vec<&str> = f.split(':').collect(); (p[0].to_string(), p[1].replace('~', "::"), p[2] == "a") }).collect();
+    let fields: Vec<(String, String, bool, bool)> = w[4..].iter().map(|f| { let p: Vec<&str> = f.split(':').collect(); (p[0].to_string(), p[1].replace('~', "::"), p[2] == "a" || p[2] == "A", p[2] == "A" || p[2] == "N") }).collect();
     match w[1] {
         "named" => format!("{}#[derive(Clone)] {}struct {} {{ {} }}", attrs, vis, w[2],
-            fields.iter().map(|(n, t, a)| format!("{}{}{}: {}", if *a { "#[animate] " } else { "" }, vis, n, t)).collect::<Vec<_>>().join(", ")),
-        "tuple" => format!("{}{}struct {}({});", attrs, vis, w[2], fields.iter().map(|(_, t, _)| t.clone()).collect::<Vec<_>>().join(", ")),
+            // marks `A` / `N`: the field also carries attributes that are not `#[animate]` (doc comment, lint attribute, a
+            // path attribute of another name, a list-form attribute) before and after the mark
+            fields.iter().enumerate().map(|(k, (n, t, a, noise))| {
+                let (pre, post) = if !*noise { ("", "") } else { match k % 4 { 0 => ("#[doc = \"the field\"] ", ""), 1 => ("", "#[allow(dead_code)] "), 2 => ("#[deprecated] ", "#[doc = \"x\"] "), _ => ("#[allow(unused)] #[doc(hidden)] ", "") } };
+                format!("{}{}{}{}{}: {}", pre, if *a { "#[animate] " } else { "" }, post, vis, n, t) }).collect::<Vec<_>>().join(", ")),
+        "tuple" => format!("{}{}struct {}({});", attrs, vis, w[2], fields.iter().map(|(_, t, _, _)| t.clone()).collect::<Vec<_>>().join(", ")),
         "unit" => format!("{}{}struct {};", attrs, vis, w[2]),
         _ => format!("{}{}enum {} {{ A, B }}", attrs, vis, w[2]),
     }
@@ -539,7 +543,8 @@ fn generate(suite: &str, seed: u64, n: usize, out: &mut dyn Write) {
                 let types = ["f32", "f64", "u8", "i16", "i32", "u32", "glam~Vec2", "Option<f32>"];
                 let nf = 1 + r.below(6) as usize;
                 let mark_mode = r.below(3);
-                let fields: Vec<String> = (0..nf).map(|k| format!("f{}:{}:{}", k, r.pick(&types), if mark_mode == 0 { "n" } else if mark_mode == 1 { "a" } else if r.chance(1, 2) { "a" } else { "n" })).collect();
+                let fields: Vec<String> = (0..nf).map(|k| format!("f{}:{}:{}", k, r.pick(&types), { let m = if mark_mode == 0 { "n" } else if mark_mode == 1 { "a" } else if r.chance(1, 2) { "a" } else { "n" };
+                    if r.chance(1, 4) { if m == "a" { "A" } else { "N" } } else { m } })).collect();
                 writeln!(out, "mderive {} {} {} {} {}", vis, kind, name, attrs.replace("~", "::"), fields.join(" ")).unwrap();
             }
         }
